@@ -2,6 +2,8 @@ SPECIFICATION Spec
 CONSTANT TerOnModelChange = TRUE
 CONSTANT CifChargeVerbatim = FALSE
 CONSTANT ShapeLevel = 1
+CONSTANT TerChainPadded = TRUE
+CONSTANT BlankSecondChain = FALSE
 CONSTANT MaxAtoms = 4
 INVARIANT InvDomain
 INVARIANT InvReadBack
